@@ -9,7 +9,9 @@ Regenerated from the snapshot on every run:
     `copy_struct_mem`, and the ND_MEMZERO arm;
   * the arithmetic of assign_lvar_offsets (first stack parameter at 16, 8-byte slots, the array >= 16 bytes rule,
     bottom-up allocation, stack_size rounded to 16);
-  * the instruction list of builtin_alloca.
+  * the instruction list of builtin_alloca;
+  * the conversion to `_Bool` that every store to a `_Bool` lvalue goes through (`cast`, arm `to->kind == TY_BOOL`, with the
+    integer arm of `cmp_zero`).
 
 Every piece is parsed statement by statement; a statement, condition, loop bound or expression that does not have
 the expected shape raises ExtractError (the check then reports the tie as broken; nothing is guessed)."""
@@ -594,6 +596,34 @@ def generate(repo):
     must(r'println\("  push %%rbp"\);\s*println\("  mov %%rsp, %%rbp"\);\s*println\("  sub \$%d, %%rsp", fn->stack_size\);\s*'
          r'println\("  mov %%rsp, %d\(%%rbp\)", fn->alloca_bottom->offset\);', et, 'emit_text prologue (push rbp; mov rsp,rbp; sub stack_size; alloca_bottom = rsp)')
 
+    # ---------------- conversion to _Bool (every assignment to a _Bool lvalue goes through it): cast(), cmp_zero()
+    what = 'cast (to _Bool)'
+    cb = flat(P(function_body(cg, r'^static void cast\(Type \*from, Type \*to\) \{', 'cast'), what).all())
+    bi = [k for k, s in enumerate(cb) if s[0] == 'if' and s[1] == 'to->kind == TY_BOOL']
+    expect(len(bi) == 1 and cb[bi[0]][3] is None, what, 'expected exactly one `if (to->kind == TY_BOOL) {...}`')
+    # the _Bool arm must come before the cast table is consulted
+    expect(all(not (s[0] == 'simple' and 'getTypeId' in s[1]) for s in cb[:bi[0]]), what, 'cast table consulted before the _Bool arm')
+    barm = body_of(cb[bi[0]][2])
+    expect(len(barm) == 4 and barm[0] == ('simple', 'cmp_zero(from)') and barm[1][0] == 'println' and barm[2][0] == 'println'
+           and barm[1][2] == [] and barm[2][2] == [] and barm[3] == ('simple', 'return'), what, f'_Bool arm is not cmp_zero(from); println; println; return: {barm!r}')
+    bool_tail = [lean_line(barm[1][1], [], what), lean_line(barm[2][1], [], what)]
+    what = 'cmp_zero (integer arm)'
+    cz = flat(P(function_body(cg, r'^static void cmp_zero\(Type \*ty\) \{', 'cmp_zero'), what).all())
+    expect(cz[0][0] == 'switch' and cz[0][1] == 'ty->kind', what, 'does not start with switch (ty->kind)')
+    czb = body_of(cz[0][2])
+    di = [k for k, s in enumerate(czb) if s == ('case', 'default')]
+    expect(len(di) == 1, what, 'no default arm')
+    dflt = czb[di[0] + 1:]
+    expect(len(dflt) == 2 and dflt[0][0] == 'if' and dflt[0][1] == 'is_integer(ty) && ty->size <= 4' and dflt[1] == ('simple', 'return'), what,
+           f'default arm is not `if (is_integer(ty) && ty->size <= 4) A else B; return`: {dflt!r}')
+    cz_small, cz_wide = body_of(dflt[0][2]), body_of(dflt[0][3]) if dflt[0][3] else []
+    expect(len(cz_small) == 1 and len(cz_wide) == 1 and cz_small[0][0] == 'println' and cz_wide[0][0] == 'println'
+           and cz_small[0][2] == [] and cz_wide[0][2] == [], what, 'arms of the integer comparison are not single printlns')
+    cz_small_l, cz_wide_l = lean_line(cz_small[0][1], [], what), lean_line(cz_wide[0][1], [], what)
+    # the arms before `default` are the floating kinds only
+    expect([s[1] for s in czb[:di[0]] if s[0] == 'case'] == ['case TY_FLOAT', 'case TY_DOUBLE', 'case TY_LDOUBLE'], what,
+           f'non-default arms changed: {[s[1] for s in czb[:di[0]] if s[0] == "case"]}')
+
     # ---------------- gen_addr ND_MEMBER / ND_VLA_PTR, ND_VAR local
     ga = function_body(cg, r'^static void gen_addr\(Node \*node\) \{', 'gen_addr')
     must(r'case ND_MEMBER:\s*gen_addr\(node->lhs\);\s*println\("  add \$%d, %%rax", node->member->offset\);\s*return;', ga, 'gen_addr ND_MEMBER (gen_addr lhs; add $offset, %rax)')
@@ -623,6 +653,9 @@ def generate(repo):
     for sz, l in store_arms[:3]:
         o += f'   if size = {sz} then {l} else\n'
     o += f'   {store_arms[3][1]}]\n\n'
+    o += '/-- conversion of an integer in %rax to `_Bool` (`cast`, arm `to->kind == TY_BOOL`): `cmp_zero(from)` then the two lines;\n'
+    o += '    `small` = `is_integer(from) && from->size <= 4` -/\ndef boolCastLines (small : Bool) : List Line :=\n'
+    o += f'  [if small then {cz_small_l} else {cz_wide_l},\n   {bool_tail[0]},\n   {bool_tail[1]}]\n\n'
     o += '/-- `store` of a struct/union: `pop %rdi` and the byte loop `for (i = 0; i < ty->size; i++)` -/\n'
     o += f'def storeStructLines (size : Nat) : List Line :=\n  [.ins ⟨"pop", [.r "%rdi"]⟩] ++ {loop_lean(st_a, st_b, "store")}\n\n'
     o += '/-- `push_struct`: `sub $align_to(size, 8), %rsp` and the byte loop -/\n'
